@@ -20,7 +20,9 @@ _INSTALLED = False
 STUBS = [
     "logging stripped: logger.<level>(...) statements in geneticengine.*/geml.* compiled as pass (import hook, current source, no .pyc)",
     "clock: geneticengine.evaluation.tracker.monotonic_ns / recorder.monotonic_ns return 0 (time budgets outside the claim)",
-    "isinstance(x, <runtime-checkable Protocol>) answered by the native isinstance under CrossHair (tool compatibility shim)",
+    "isinstance(x, TreeNode) answered by the native isinstance under CrossHair (tool compatibility shim)",
+    "typing alias __hash__ (Union/Annotated used as dict keys) evaluated outside the CrossHair tracer (tool compatibility shim)",
+    "grammar.utils.get_arguments runs outside the CrossHair tracer (same code, concrete class arguments only; performance)",
 ]
 
 
@@ -75,18 +77,62 @@ def install():
 
 
 def install_crosshair_shims():
+    """(1) isinstance(x, TreeNode): CrossHair's isinstance patch calls issubclass, which raises
+    TypeError for runtime-checkable protocols with data members; answer with the native isinstance.
+    (2) run geneticengine.grammar.utils.get_arguments outside the tracer: the same code, on
+    concrete class objects only (typing.get_type_hints is ~30% of the traced time otherwise)."""
     import builtins
+    import functools
+    import sys
 
     from crosshair.core import _PATCH_REGISTRATIONS
     from crosshair.libimpl import builtinslib
     from crosshair.tracers import NoTracing
 
+    from geneticengine.solutions.tree import TreeNode
+
     _oi, _ci = builtins.isinstance, builtinslib._isinstance
 
     def shim(obj, types):
-        with NoTracing():
-            if _oi(types, type) and getattr(types, "_is_protocol", False):
+        if types is TreeNode:
+            with NoTracing():
                 return _oi(obj, types)
         return _ci(obj, types)
 
     _PATCH_REGISTRATIONS[builtins.isinstance] = shim
+
+    # (3) typing aliases (Union[...], Annotated[...]) used as dict keys: their Python-level __hash__
+    # calls hash() on classes, which CrossHair models symbolically ("__hash__ method should return
+    # an integer"); hash them outside the tracer.
+    import typing
+
+    def _untraced_hash(cls):
+        h = cls.__dict__.get("__hash__")
+        if h is None or getattr(h, "_verif_untraced", False):
+            return
+
+        def __hash__(self, _h=h):
+            with NoTracing():
+                return _h(self)
+
+        __hash__._verif_untraced = True
+        cls.__hash__ = __hash__
+
+    for cname in ("_GenericAlias", "_UnionGenericAlias", "_AnnotatedAlias", "_BaseGenericAlias"):
+        c = getattr(typing, cname, None)
+        if c is not None:
+            _untraced_hash(c)
+
+    import geneticengine.grammar.utils as U
+
+    orig = U.get_arguments
+
+    @functools.wraps(orig)
+    def get_arguments_untraced(n):
+        with NoTracing():
+            return orig(n)
+
+    for name, mod in list(sys.modules.items()):
+        if mod is not None and (name == "geneticengine" or name.startswith("geneticengine.") or name.startswith("geml")):
+            if getattr(mod, "get_arguments", None) is orig:
+                setattr(mod, "get_arguments", get_arguments_untraced)
